@@ -166,6 +166,11 @@ def slack(e, env):
     if e[0] == "Log1mSq":
         x = evaluate(e[1], env)
         return 5e-7 / max(1.0 - x * x + 1e-6, 1e-6)
+    if e[0] in ("LogSoftmaxAt", "CatEntropy"):      # torch normalises with logits - logsumexp(logits): the float32 ulp of |logsumexp|
+        return lse_slack([evaluate(x, env) for x in e[1]])
+    if e[0] in ("BernLogP", "BernEntropy"):         # x*l - softplus(l): two terms of size |l|
+        l = abs(evaluate(e[1], env))
+        return 2.4e-7 * l if l < 1e7 else 0.0      # (a masked logit -1e8 gives an exact 0 or a value the relative tolerance covers)
     if e[0] == "NormalLogPdf":      # cancellation in (x - mu) / sigma when |x|, |mu| >> sigma
         mu, sigma, x = evaluate(e[1], env), evaluate(e[2], env), evaluate(e[3], env)
         sl = normal_slack(mu, sigma, x)
@@ -189,3 +194,7 @@ def atanh_slack(mu, sigma, x):
     dx = 2.5e-7 * (abs(x) + abs(a) / max(1.0 - a * a, 1e-7))
     z = abs(x - mu) / sigma
     return z * dx / sigma + 0.5 * (dx / sigma) ** 2
+
+
+def lse_slack(v):
+    return 2.4e-7 * abs(_logsumexp(list(v)))
